@@ -124,14 +124,9 @@ theorem C07_pop_progress (s : BSt) (h : (processLowest (runInj []) s).2 = true) 
     pendingTotal (processLowest (runInj []) s).1 + 1 = pendingTotal s :=
   processLowest_pending s h
 
-/- Full statement aimed at (not proved): from every reachable state the exit loop reaches its "everything is empty"
-   branch within `pendingTotal s + (maxTs + grace − now) / tick + 1` iterations, i.e. `exitEnds` holds for the fuel of
-   `Op.exit`. Missing: (1) that an iteration in which every pending timestamp is eligible (`ts ≤ now − grace`) pops
-   at least one event — this needs the bounded-queue invariant `Spsc.QInv` for every thread's queue (a non-empty
-   queue is offered by `prepare_read`, so the do-while of `readQueue` moves at least one eligible record and
-   `hasPending` then answers no); (2) the clock argument for the iterations before that. Proved: the conditional
-   form below (progress in every non-final iteration ⇒ termination within `pendingTotal + 1` iterations), together
-   with `C07_exit_never_adds` and `C07_pop_progress`. -/
+/- The full termination statement is `C07_exit_terminates` below (proved with the per-iteration progress fact of
+   prover bundle B, which rests on the queue coupling `PB.QC`); the conditional form that follows was the first
+   step and is kept because it holds for every injection runner. -/
 
 /-- **Termination, conditionally** (`…_partial`, see the comment above): if every iteration that does not find
     everything empty takes at least one statement out of the waiting ones, the exit loop reaches its "everything is
